@@ -288,6 +288,15 @@ func addLineToFile(filePath, line string) error {
 		return err
 	}
 	defer file.Close()
+	// A hand-edited file may not end with a newline: never glue the new
+	// line to the last one.
+	content, err := os.ReadFile(filePath)
+	if err != nil {
+		return err
+	}
+	if len(content) > 0 && content[len(content)-1] != '\n' {
+		line = "\n" + line
+	}
 	_, err = file.WriteString(line + "\n")
 	if err != nil {
 		return err
